@@ -4,6 +4,16 @@ from trashcli.put.core.path_maker_type import PathMakerType
 from trashcli.put.fs.fs import Fs
 
 
+def strip_trailing_slashes_and_dots(path):
+    while True:
+        stripped = path.rstrip(os.path.sep)
+        if stripped.endswith(os.path.sep + os.path.curdir):
+            stripped = stripped[:-1]
+        if stripped == path or stripped == '':
+            return stripped or path[:1]
+        path = stripped
+
+
 class OriginalLocation:
     def __init__(self,
                  fs,  # type: Fs
@@ -15,13 +25,15 @@ class OriginalLocation:
                  path_maker_type,  # type: PathMakerType
                  volume_top_dir,
                  ):  # type: (...) -> str
-        normalized_path = os.path.normpath(path)
-        basename = os.path.basename(normalized_path)
-        parent = self.fs.parent_realpath2(normalized_path)
+        # the parent is resolved by the file system, not lexically:
+        # 'link/../x' is not './x' when 'link' is a symbolic link
+        path = strip_trailing_slashes_and_dots(path)
+        basename = os.path.basename(path)
+        parent = self.fs.parent_realpath2(path)
         parent = self._calc_parent_path(parent, volume_top_dir,
                                         path_maker_type)
 
-        return os.path.join(parent, basename)
+        return os.path.normpath(os.path.join(parent, basename))
 
     @staticmethod
     def _calc_parent_path(parent,  # type: str
